@@ -98,6 +98,31 @@ def run(ctx):
         if not oracle_binnify(sizes, b, im):
             ctx.fail(case, {"got": im[:20]}, None)
 
+    # exact multiples of "round" bin widths: the bin COUNT is where float shortcuts (a reciprocal, a rounded quotient) go
+    # wrong; only the count, the tiling and the absence of empty bins are judged (oracle), widths and multiples swept densely
+    widths = [3, 7, 10, 25, 100, 1000, 5000, 10000, 25000, 40000, 50000, 100000, 250000, 500000, 10 ** 6, 2 ** 20, 3 * 10 ** 6]
+    ks = list(range(1, 61)) + [rng.randint(61, 2000) for _ in range(40 if thorough else 12)]
+    for b in widths:
+        sizes = [k * b for k in ks if k * b < 2 ** 31]
+        shifted = [k * b + d for k in ks[:20] for d in (-1, 1) if 0 < k * b + d < 2 ** 31]
+        for group in (sizes, shifted):
+            case = {"fn": "binnify (exact multiples and neighbours)", "binsize": b, "n_lengths": len(group)}
+            ctx.case(case, kind="binnify:multiples")
+            rows = impl_binnify(group, b)
+            per = {}
+            for (c, s_, e) in rows:
+                per.setdefault(c, []).append((s_, e))
+            bad = None
+            for ci, L in enumerate(group):
+                got = per.get(ci, [])
+                exp_n = -(-L // b)
+                if len(got) != exp_n or any(e <= s_ for s_, e in got) or got[0][0] != 0 or got[-1][1] != L \
+                        or any(got[t][1] != got[t + 1][0] for t in range(len(got) - 1)) or any(e - s_ != b for s_, e in got[:-1]):
+                    bad = {"length": L, "expected_bins": exp_n, "got_bins": len(got), "last_bins": got[-2:]}
+                    break
+            if bad:
+                ctx.fail({**case, "length": bad["length"]}, bad, None)
+
     # ------------------------------------------- 2. get_binsize / get_chromsizes
     tables = []
     comps = {L: compositions(L) for L in range(1, 9)}
